@@ -124,6 +124,8 @@ def cases(tier, seed):
         yield ('A', m)
     for m in rt.collision_models():
         yield ('D', m)
+    for t in families.long_chains():
+        yield ('K', cm.on_carrier([t]))
     for t in families.deep_trees():
         if True:
             yield ('K', cm.on_carrier([t]))
